@@ -29,7 +29,7 @@ ASSUMPTIONS = [
     'native replays use the real struct/ipaddress/socket functions',
 ]
 BOUNDS = {'quick': {'ports': 'all 0..65535 (symbolic)', 'hostname': "'g'+<=3 symbolic chars (0x21..0x7e), lengths 255/256 concrete",
-                    'literals': '6 IPv4 + 6 IPv6', 'non_ascii': 'one symbolic non-ASCII code point (0x80..0x9f; the UnicodeEncodeError message realises it) at a symbolic position'},
+                    'literals': '6 IPv4 + 9 IPv6 (3 with upper-case hex digits)', 'non_ascii': 'one symbolic non-ASCII code point (0x80..0x9f; the UnicodeEncodeError message realises it) at a symbolic position'},
           'thorough': {'hostname': "'g'+<=5 symbolic chars"}}
 OUTSIDE = ['symbolic content of hostnames longer than 6 characters', 'IDNA', 'hostnames whose first character is not g (symbolic part)']
 
